@@ -193,7 +193,7 @@ async def op(rec: Recorder, name: str, tmo: float | None, coro: Any) -> tuple[st
             d = list(val)
             if val == b"":
                 res = "Empty"
-        elif name == "request":
+        elif name in ("request", "request2"):
             d = list(val.pdu)
     except asyncio.CancelledError:
         rec.add("End", op=name, res="Hang", d=[])
@@ -243,7 +243,7 @@ def transport_case(tk: str, cut_at: int, kind: str, tmo: float | None, cut_delay
 
 
 def client_case(tk: str, cut_at: int, kind: str, retries: int, restart_ms: int | None, cut_delay_ms: int,
-                warm: int = 0) -> dict[str, Any]:
+                warm: int = 0, follow_up: bool = False) -> dict[str, Any]:
     rec = Recorder()
 
     async def main() -> None:
@@ -257,6 +257,10 @@ def client_case(tk: str, cut_at: int, kind: str, retries: int, restart_ms: int |
             peer.cut_before_request()
             await settle()
             await op(rec, "request", 1.0, cl.request(service.ReadDataByIdentifierRequest(0x1234)))
+            if follow_up:
+                # "the next attempt recovers": a further request once the peer accepts connections again
+                await asyncio.sleep(((restart_ms or 0) + 200) / 1000)
+                await op(rec, "request2", 1.0, cl.request(service.ReadDataByIdentifierRequest(0x1234)))
             await op(rec, "close", None, cl.transport.close())
             await op(rec, "close", None, cl.transport.close())
         rec.add("Final")
@@ -274,7 +278,7 @@ def client_case(tk: str, cut_at: int, kind: str, retries: int, restart_ms: int |
     window = WINDOW[tk] if kind in ("EOF", "Reset") else -1
     return {"cfg": {"ackTime": ACK[tk], "retries": retries, "expect": list(REPLY), "window": window}, "ev": ev,
             "tk": tk, "cut_at": cut_at, "kind": kind, "retries": retries, "restart": restart_ms,
-            "cut_delay": cut_delay_ms, "level": "client", "notes": notes, "warm": warm}
+            "cut_delay": cut_delay_ms, "level": "client", "notes": notes, "warm": warm, "follow_up": follow_up}
 
 
 def validate(traces: list[dict[str, Any]]) -> tuple[dict[int, tuple[str, int]], list[Any]]:
@@ -325,7 +329,7 @@ def run(tier: str, seed: int) -> Report:
     seen: set[str] = set()
 
     def add(t: dict[str, Any]) -> None:
-        key = json.dumps([t["tk"], t["cfg"], t["cut_at"], t["kind"], t.get("cut_delay"), t.get("restart"), t.get("warm"), t["ev"]])
+        key = json.dumps([t["tk"], t["cfg"], t["cut_at"], t["kind"], t.get("cut_delay"), t.get("restart"), t.get("warm"), t.get("follow_up"), t["ev"]])
         if key in seen:
             return
         seen.add(key)
@@ -357,6 +361,8 @@ def run(tier: str, seed: int) -> Report:
                         if kind == "Silence" and restart not in (0,):
                             continue
                         add(client_case(tk, k, kind, R, restart, 0))
+                        if restart is not None and (tier == "thorough" or k % 6 == 0 or k <= 0):
+                            add(client_case(tk, k, kind, R, restart, 0, follow_up=True))
                         if tier == "thorough":
                             add(client_case(tk, k, kind, R, restart, 100))
                             add(client_case(tk, k, kind, R, restart, 0, warm=1))
